@@ -160,3 +160,217 @@ contract('bits.Bits.all', shapes=_self_shapes(*_v_args, combos=[{'v': 0}, {'v': 
          note="all(v): every bit equals bool(v)")(_allany('all'))
 contract('bits.Bits.any', shapes=_self_shapes(*_v_args, combos=[{'v': 0}, {'v': 1}]), props={'C07', 'C08'}, kind='public',
          note="any(v): some bit equals bool(v)")(_allany('any'))
+
+
+# ---- generators: findall / split / cut / replace (bounded stand-in: the bodies loop over external iterators) --------------
+import random as _random
+
+
+def _periodic_inputs(rng, with_delim=True):
+    """data with many (overlapping, aligned and unaligned) occurrences: repetitions of a short unit"""
+    unit = [rng.random() < 0.5 for _ in range(rng.choice([1, 2, 3, 4, 8, 8, 16]))]
+    if rng.random() < 0.4:
+        unit = [unit[0]] * len(unit)
+    reps = rng.randint(0, max(1, 48 // max(1, len(unit))))
+    data = (unit * reps)[:rng.randint(0, 64)] if rng.random() < 0.3 else unit * reps
+    for _ in range(rng.randint(0, 2)):
+        if data:
+            data[rng.randrange(len(data))] ^= True
+    plen = rng.choice([1, 2, 3, 8, 8, 16, 16, 24, len(unit), 2 * len(unit)])
+    start = rng.randrange(len(data)) if data else 0
+    pat = (data[start:start + plen] if rng.random() < 0.8 else [rng.random() < 0.5 for _ in range(plen)]) or [True]
+    return data, pat
+
+
+def _brute(D, P, s, e, ba):
+    n, m = len(D), len(P)
+    return [p for p in range(s, e - m + 1) if D[p:p + m] == P and (not ba or p % 8 == 0)]
+
+
+def _concrete(V):
+    return [bool(V.bit(i)) for i in range(V.n)]
+
+
+def _search_shapes(extra_args, extra_real, gen_extra, states=SELF_STATES_MEM, names=('count',)):
+    out = []
+    for cls, st in states:
+        for ba in BA_KINDS:
+            def build(S, interp, cls=cls, st=st, ba=ba):
+                o = m_bits(S, interp, 'self', cls, st)
+                return [o, m_operand(S, interp, 'bs', ('obj', 'Bits', 'immutable'), o)] + extra_args(S) + [ba], {}
+
+            def real(vals, cls=cls, st=st, ba=ba):
+                o = r_bits(vals, 'self', cls, st)
+                return [o, r_operand(vals, 'bs', ('obj', 'Bits', 'immutable'), o)] + extra_real(vals) + [ba], {}
+
+            def gen(rng, cls=cls):
+                data, pat = _periodic_inputs(rng)
+                v = {'self': data, 'bs': pat}
+                if cls in ('ConstBitStream', 'BitStream'):
+                    v['self.pos'] = rng.randint(0, len(data))
+                v.update(gen_extra(rng, len(data)))
+                return v
+            out.append(Shape(f'{cls}/{st}/ba={ba}', build, real, gen=gen, stable=False, bounded_only=True))
+    return out
+
+
+def _opt(rng, n):
+    return rng.choice([None, None, rng.randint(-n - 2, n + 2)])
+
+
+_fa_args = (lambda S: [mk_opt(S, 'start', 'int'), mk_opt(S, 'end', 'int'), mk_opt(S, 'count', 'int')],
+            lambda v: [v['start'], v['end'], v['count']],
+            lambda rng, n: {'start': rng.choice([0, 0, rng.randint(-n - 2, n + 2)]), 'end': rng.choice([n, n, rng.randint(-n - 2, n + 2)]),
+                            'count': rng.choice([0, 1, 2, 1000, 1000, -1])})
+
+
+@contract('bits.Bits.findall', shapes=_search_shapes(*_fa_args), props={'C07'}, kind='public',
+          note="findall: every position (overlapping ones included) where the pattern lies wholly inside [start, end), byte-aligned "
+               "ones only when asked, in increasing order, at most count; ValueError for an empty pattern, an invalid range or "
+               "count < 0  (BOUNDED: the body loops over bitarray.search / bytes.find)")
+def findall_spec(C, self, bs, start=None, end=None, count=None, bytealigned=None):
+    D, P = _concrete(bits(self)), _concrete(promote_bits(C, bs))
+    if count is not None and count < 0:
+        C.throw('ValueError')
+    if not P:
+        C.throw('ValueError')
+    s, e = window(C, bits(self), start, end)
+    ba = C.option('bytealigned') if bytealigned is None else bytealigned
+    ms = _brute(D, P, s, e, ba)
+    return ('gen', ms if count is None else ms[:count])
+
+
+def _nonoverlap(ms, m):
+    out = []
+    for p in ms:
+        if not out or p >= out[-1] + m:
+            out.append(p)
+    return out
+
+
+_sp_args = _fa_args
+
+
+@contract('bits.Bits.split', shapes=_search_shapes(*_sp_args), props={'C07'}, kind='public',
+          note="split: the pieces between successive non-overlapping occurrences of the delimiter found left to right inside "
+               "[start, end); the first piece may be empty, every later piece starts with the delimiter; at most count pieces; "
+               "ValueError for an empty delimiter / invalid range / count < 0  (BOUNDED)")
+def split_spec(C, self, delimiter, start=None, end=None, count=None, bytealigned=None):
+    V = bits(self)
+    D, P = _concrete(V), _concrete(promote_bits(C, delimiter))
+    if not P:
+        C.throw('ValueError')
+    s, e = window(C, V, start, end)
+    ba = C.option('bytealigned') if bytealigned is None else bytealigned
+    if count is not None and count < 0:
+        C.throw('ValueError')
+    if count == 0:
+        return ('gen', [])
+    ms = _nonoverlap(_brute(D, P, s, e, ba), len(P))
+    cuts = [s] + ms + [e]
+    pieces = [(cuts[i], cuts[i + 1]) for i in range(len(cuts) - 1)]
+    if count is not None:
+        pieces = pieces[:count]
+    return ('gen', [mk_bits(C, self.cls, sub(V, a, b), pos=0) for a, b in pieces])
+
+
+def _cut_shapes():
+    out = []
+    for cls, st in SELF_STATES_MEM:
+        def build(S, interp, cls=cls, st=st):
+            return [m_bits(S, interp, 'self', cls, st), S.int('bits'), mk_opt(S, 'start', 'int'), mk_opt(S, 'end', 'int'), mk_opt(S, 'count', 'int')], {}
+
+        def real(vals, cls=cls, st=st):
+            return [r_bits(vals, 'self', cls, st), vals['bits'], vals['start'], vals['end'], vals['count']], {}
+
+        def gen(rng, cls=cls):
+            n = rng.randint(0, 40)
+            v = {'self': [rng.random() < 0.5 for _ in range(n)], 'bits': rng.choice([1, 2, 3, 7, 8, 9, n, n + 1, 0, -1]),
+                 'start': rng.choice([None, 0, rng.randint(-n - 2, n + 2)]), 'end': rng.choice([None, n, rng.randint(-n - 2, n + 2)]),
+                 'count': rng.choice([None, None, 0, 1, 2, 100, -1])}
+            if cls in ('ConstBitStream', 'BitStream'):
+                v['self.pos'] = rng.randint(0, n)
+            return v
+        out.append(Shape(f'{cls}/{st}', build, real, gen=gen, stable=False, bounded_only=True))
+    return out
+
+
+@contract('bits.Bits.cut', shapes=_cut_shapes(), props={'C07', 'C17'}, kind='public',
+          note="cut(bits, start, end, count): successive bits-sized chunks of [start, end), the last one shorter, at most count; "
+               "ValueError for bits <= 0, count < 0 or an invalid range  (BOUNDED: generator loop)")
+def cut_spec(C, self, nbits, start=None, end=None, count=None):
+    V = bits(self)
+    s, e = window(C, V, start, end)
+    if count is not None and count < 0:
+        C.throw('ValueError')
+    if nbits <= 0:
+        C.throw('ValueError')
+    out = []
+    p = s
+    while p < e and (count is None or len(out) < count):
+        q = min(p + nbits, e)
+        out.append(mk_bits(C, self.cls, sub(V, p, q), pos=0))
+        p = q
+    return ('gen', out)
+
+
+def _replace_shapes():
+    out = []
+    for cls, st in MUT_STATES:
+        for ba in BA_KINDS:
+            def build(S, interp, cls=cls, st=st, ba=ba):
+                o = m_bits(S, interp, 'self', cls, st)
+                return [o, m_operand(S, interp, 'old', ('obj', 'Bits', 'immutable'), o), m_operand(S, interp, 'new', ('obj', 'Bits', 'immutable'), o),
+                        mk_opt(S, 'start', 'int'), mk_opt(S, 'end', 'int'), mk_opt(S, 'count', 'int'), ba], {}
+
+            def real(vals, cls=cls, st=st, ba=ba):
+                o = r_bits(vals, 'self', cls, st)
+                return [o, r_operand(vals, 'old', ('obj', 'Bits', 'immutable'), o), r_operand(vals, 'new', ('obj', 'Bits', 'immutable'), o),
+                        vals['start'], vals['end'], vals['count'], ba], {}
+
+            def gen(rng, cls=cls):
+                data, pat = _periodic_inputs(rng)
+                n = len(data)
+                v = {'self': data, 'old': pat, 'new': [rng.random() < 0.5 for _ in range(rng.choice([0, 1, len(pat), 8, 3]))],
+                     'start': rng.choice([None, 0, rng.randint(-n - 2, n + 2)]), 'end': rng.choice([None, n, rng.randint(-n - 2, n + 2)]),
+                     'count': rng.choice([None, None, 0, 1, 2])}
+                if cls == 'BitStream':
+                    v['self.pos'] = rng.randint(0, n)
+                return v
+            out.append(Shape(f'{cls}/{st}/ba={ba}', build, real, gen=gen, stable=False, bounded_only=True))
+    return out
+
+
+def _replace_spec(stream):
+    def f(C, self, old, new, start=None, end=None, count=None, bytealigned=None):
+        from .bits_ops import _set_bits
+        V = bits(self)
+        D, P, N = _concrete(V), _concrete(promote_bits(C, old)), _concrete(promote_bits(C, new))
+        if count == 0:
+            return 0
+        if not P:
+            C.throw('ValueError')
+        s, e = window(C, V, start, end)
+        ba = C.option('bytealigned') if bytealigned is None else bytealigned
+        ms = _nonoverlap(_brute(D, P, s, e, ba), len(P))
+        if count is not None:
+            ms = ms[:count]
+        outb = []
+        p = 0
+        for m in ms:
+            outb += D[p:m] + N
+            p = m + len(P)
+        outb += D[p:]
+        if ms:
+            _set_bits(C, self, BA.concrete(outb))
+        if stream and '_pos' in self.attrs and len(outb) != len(D):
+            self.attrs['_pos'] = 0
+        return len(ms)
+    return f
+
+
+contract('bitarray_.BitArray.replace', shapes=[sh for sh in _replace_shapes() if sh.name.startswith('BitArray')], props={'C07', 'C03'},
+         kind='public', note="replace: successive non-overlapping occurrences of old inside [start, end), found left to right (byte-"
+                             "aligned only when asked), at most count, are replaced by new; returns how many  (BOUNDED)")(_replace_spec(False))
+contract('bitstream.BitStream.replace', shapes=[sh for sh in _replace_shapes() if sh.name.startswith('BitStream')], props={'C07', 'C03', 'C06'},
+         kind='public', note="as BitArray.replace; pos is reset to 0 iff the length changed  (BOUNDED)")(_replace_spec(True))
